@@ -10,6 +10,8 @@ import (
 
 // C16: audio payloaders split losslessly; Opus is passed through.
 // opcodes: 1601 g711 mtu payload | 1602 g722 | 1603 opus payloader | 1604 OpusPacket.Unmarshal
+//          1606 kind [[mtu payload]...]  ONE payloader instance over several calls: what earlier calls returned
+//               stays what it was, and a fragment handed back in as the next input is treated like any input
 
 func sizeBucket(n int) string {
 	switch {
@@ -50,10 +52,119 @@ func runPayloader(p rtp.Payloader, mtu uint16, in []byte) (v Val, frags [][]byte
 	return OkV(items), out, inputIntact, fresh, false
 }
 
+// runPayloaderSeq: the per-call clauses of C16 on every call of a sequence through one instance, plus what
+// only a sequence shows - a later call must not change a fragment an earlier call returned (each is "not
+// aliasing the input" of ANY call, and equal to its own input for good), and a fragment fed back in as
+// input (whole, or its tail) is an input like any other
+func runPayloaderSeq(kind int, calls []Tok) Outcome {
+	var o Outcome
+	var p rtp.Payloader
+	name := ""
+	switch kind {
+	case 0:
+		p, name = &codecs.G711Payloader{}, "g711"
+	case 1:
+		p, name = &codecs.G722Payloader{}, "g722"
+	default:
+		p, name = &codecs.OpusPayloader{}, "opus"
+	}
+	fail := func(f string, a ...interface{}) {
+		if o.Fail == "" {
+			o.Fail = fmt.Sprintf(f, a...)
+		}
+	}
+	type kept struct {
+		frags [][]byte
+		snap  [][]byte
+	}
+	var earlier []kept
+	res := VList{}
+	check := func(step int, mtu uint16, in []byte, frags [][]byte) {
+		if in == nil {
+			return
+		}
+		if kind == 2 {
+			if len(frags) != 1 || !bytes.Equal(frags[0], in) {
+				fail("call %d: opus: not exactly one fragment equal to the input", step)
+			}
+			return
+		}
+		if mtu >= 1 {
+			var cat []byte
+			for i, f := range frags {
+				cat = append(cat, f...)
+				if (i < len(frags)-1 && len(f) != int(mtu)) || len(f) > int(mtu) {
+					fail("call %d: fragment %d of %d has %d bytes at MTU %d", step, i, len(frags), len(f), mtu)
+				}
+			}
+			if !bytes.Equal(cat, in) {
+				fail("call %d: fragments do not concatenate to the input", step)
+			}
+		}
+	}
+	for step, c := range calls {
+		l := tokList(c)
+		mtu, in := uint16(tokInt(l[0])), tokBytes(l[1])
+		v, frags, intact, fresh, panicked := runPayloader(p, mtu, in)
+		res = append(res, v)
+		if panicked {
+			fail("call %d: panic", step)
+			break
+		}
+		if !intact {
+			fail("call %d: input modified", step)
+		}
+		if !fresh {
+			fail("call %d: fragment aliases the input", step)
+		}
+		check(step, mtu, in, frags)
+		k := kept{frags: frags}
+		for _, f := range frags {
+			k.snap = append(k.snap, append([]byte{}, f...))
+		}
+		earlier = append(earlier, k)
+		for e, ke := range earlier {
+			for i := range ke.frags {
+				if !bytes.Equal(ke.frags[i], ke.snap[i]) {
+					fail("call %d changed fragment %d returned by call %d (was %x, is %x)", step, i, e, ke.snap[i], ke.frags[i])
+				}
+			}
+		}
+	}
+	// a fragment an earlier call returned, handed back in (the very slice, then its tail)
+	if o.Fail == "" {
+		for e, ke := range earlier {
+			if len(ke.frags) == 0 || len(ke.frags[0]) == 0 || e > 2 {
+				continue
+			}
+			for _, in := range [][]byte{ke.frags[0], ke.frags[0][len(ke.frags[0])/2:]} {
+				want := append([]byte{}, in...)
+				var out [][]byte
+				if pn, what := catch(func() { out = p.Payload(uint16(len(want)+3), in) }); pn {
+					fail("fragment of call %d fed back in: panic: %s", e, what)
+					break
+				}
+				if !bytes.Equal(in, want) {
+					fail("fragment of call %d fed back in: the input was modified", e)
+				}
+				if len(out) != 1 || !bytes.Equal(out[0], want) {
+					fail("fragment of call %d fed back in (%d bytes, MTU %d): result is not one fragment equal to the input", e, len(want), len(want)+3)
+				} else if overlaps(out[0], in) {
+					fail("fragment of call %d fed back in: the result aliases its input", e)
+				}
+			}
+		}
+	}
+	o.Impl = res
+	o.Nontrivial = len(calls) >= 2
+	o.Tags = []string{name + " call sequence"}
+	return o
+}
+
 func init() {
 	register(&Prop{
 		ID:       "C16",
-		Rule:     "lengths 0-10000 x MTU 1-65535 with mass on len = k*mtu +-1 and tiny MTUs, plus nil/empty inputs; exhaustive lengths 0-64 x MTU 1-66 in thorough; non-trivial = at least two fragments, or an OpusPacket case with a non-empty payload",
+		Rule:     "lengths 0-10000 x MTU 1-65535 with mass on len = k*mtu +-1 and tiny MTUs, plus nil/empty inputs; one instance over 2-5 calls with sizes going up and down, earlier fragments re-read after every call and fed back in as input; exhaustive lengths 0-64 x MTU 1-66 in thorough; non-trivial = at least two fragments, or an OpusPacket case with a non-empty payload",
 		Quick:    4000,
 		Thorough: 120000,
 		Gen: func(r *RNG, tier string, n int, emit func(op int, toks ...Tok)) {
@@ -96,9 +207,25 @@ func init() {
 					}
 				}
 			}
+			// one instance over several calls: sizes going up and down (a kept buffer would be reused)
+			for kind := int64(0); kind <= 2; kind++ {
+				emit(1606, TI(kind), TList{TList{TI(4), TB([]byte{1, 2, 3, 4, 5, 6, 7, 8, 9})}, TList{TI(4), TB([]byte{0xA1, 0xA2, 0xA3})}, TList{TI(2), TB([]byte{0xB1, 0xB2, 0xB3, 0xB4, 0xB5})}})
+			}
 			for i := 0; i < n; i++ {
 				c := r.Fork(uint64(i))
 				op := c.Pick(1601, 1601, 1602, 1602, 1603, 1604)
+				if i%8 == 0 {
+					calls := TList{}
+					for k, kn := 0, 2+c.Intn(4); k < kn; k++ {
+						var b []byte
+						if c.Intn(8) != 0 {
+							b = c.Bytes(c.Pick(1, 2, 3, 1+c.Intn(40), 1+c.Intn(300)))
+						}
+						calls = append(calls, TList{TI(int64(c.Pick(1, 2, 3, 7, 1+c.Intn(50), 1200))), TB(b)})
+					}
+					emit(1606, TI(int64(c.Intn(3))), calls)
+					continue
+				}
 				if op == 1604 && c.Intn(3) == 0 {
 					seq := TList{}
 					for k, kn := 0, 2+c.Intn(4); k < kn; k++ {
@@ -227,6 +354,9 @@ func init() {
 				}
 				o.Tags = []string{"opus-unmarshal len " + sizeBucket(len(in))}
 				return o
+			}
+			if op == 1606 {
+				return runPayloaderSeq(int(tokInt(toks[0])), tokList(toks[1]))
 			}
 			mtu := uint16(tokInt(toks[0]))
 			in := tokBytes(toks[1])
